@@ -1038,6 +1038,11 @@ def evalE : Nat → FE → M MV
         | .ref fo => do let v ← constructObj n fo argumentList; pure (.val v)
         | _ => throwErr "TypeError")
     | .fcc k => pure (.val (.str (String.singleton (Char.ofNat k))))                  -- builtin_string.go fromCharCode
+    | .accFn _ f => do                                                               -- :325 object literal, case "get" / "set"
+      let sc ← curScope
+      let _ ← newObject                                                                  -- result := rt.newObject()
+      let o ← newNodeFunction f sc.lexical                                               -- rt.newNodeFunction(…, rt.scope.lexical)
+      pure (.val (.ref o))                                                               -- …getOwnPropertyDescriptor(…).get / .set
     | .fnCtor f => do                                                                -- builtin_function.go:32 builtinNewFunctionNative
       let o ← newNodeFunction f globalStash                                              -- :49 … rt.globalStash
       pure (.val (.ref o))
